@@ -150,14 +150,49 @@ pub fn drive(args: &[String]) {
         }
     }
     words.shuffle(&mut rng);
-    let ev = catch(|| {
-        let cmp: Vec<Vec<i64>> = words.iter().map(|a| words.iter().map(|b| ord(a, b)).collect()).collect();
-        let eq: Vec<Vec<bool>> = words.iter().map(|a| words.iter().map(|b| a == b).collect()).collect();
-        let reps: Vec<Vec<isize>> = words.iter().map(|a| letters(&relator_representative(a))).collect();
-        let perms: Vec<Vec<Vec<isize>>> = words.iter().map(|a| relator_permutations(a).iter().map(letters).collect()).collect();
-        json!({"ev": "word_order", "words": words.iter().map(letters).collect::<Vec<_>>(), "cmp": cmp, "eq": eq, "reps": reps, "perms": perms})
-    });
-    sink.emit(match ev { Ok(e) => e, Err(m) => json!({"ev": "word_order", "panic": m}) });
+    let order_event = |words: &Vec<FreeWord>| -> Value {
+        let ev = catch(|| {
+            let cmp: Vec<Vec<i64>> = words.iter().map(|a| words.iter().map(|b| ord(a, b)).collect()).collect();
+            let eq: Vec<Vec<bool>> = words.iter().map(|a| words.iter().map(|b| a == b).collect()).collect();
+            let reps: Vec<Vec<isize>> = words.iter().map(|a| letters(&relator_representative(a))).collect();
+            let perms: Vec<Vec<Vec<isize>>> = words.iter().map(|a| relator_permutations(a).iter().map(letters).collect()).collect();
+            json!({"ev": "word_order", "words": words.iter().map(letters).collect::<Vec<_>>(), "cmp": cmp, "eq": eq, "reps": reps, "perms": perms})
+        });
+        match ev { Ok(e) => e, Err(m) => json!({"ev": "word_order", "panic": m}) }
+    };
+    sink.emit(order_event(&words));
+    // (a2) words with internal repetition: u^k followed by a proper prefix of u (overlapping but not a power), proper powers,
+    // and their conjugates, each with ALL its rotations and inverses as one closed comparison table: the least rotation of
+    // such a word is where shortcuts for periodic words go wrong
+    {
+        let mut us: Vec<Vec<isize>> = vec![];
+        for a in [1isize, 2, -1, -2] { for b in [1isize, 2, -1, -2] { if a != -b { us.push(vec![a, b]); for c in [1isize, 2, -2] { if b != -c { us.push(vec![a, b, c]); } } } } }
+        us.shuffle(&mut rng);
+        let nper = arg_usize(args, "--periodic", 60);
+        let mut done = std::collections::HashSet::new();
+        let mut emitted = 0;
+        'outer: for u in us {
+            for k in 1..=3usize { for pre in 0..u.len() {
+                let mut w: Vec<isize> = vec![];
+                for _ in 0..k { w.extend(&u); }
+                w.extend(&u[..pre]);
+                let f = FreeWord::new(w.clone());
+                if letters(&f) != w || w.len() < 4 || w.len() > 10 { continue; }
+                // the closed set: rotations and inverses by direct construction (not by the library)
+                let mut set: Vec<Vec<isize>> = vec![];
+                for r in 0..w.len() { let mut x = w[r..].to_vec(); x.extend(&w[..r]); let y: Vec<isize> = x.iter().rev().map(|t| -t).collect();
+                    for z in [x, y] { if letters(&FreeWord::new(z.clone())) == z && !set.contains(&z) { set.push(z); } } }
+                // only cyclically reduced words have rotations that are all reduced; skip the others
+                if set.len() < 2 || w[0] == -w[w.len() - 1] { continue; }
+                let mut key = set.clone(); key.sort();
+                if !done.insert(key) { continue; }
+                set.shuffle(&mut rng);
+                sink.emit(order_event(&set.iter().map(|z| FreeWord::new(z.clone())).collect()));
+                emitted += 1;
+                if emitted >= nper { break 'outer; }
+            } }
+        }
+    }
     // (b) random operations on long words over 3 generators, with planted cancellations
     for k in 0..nops {
         let la = rng.gen_range(0..=maxlen);
